@@ -615,6 +615,40 @@ Definition first_hook_failure (rs : list (prev * hook_result)) : option hook_res
 Definition fresh_revision_name (k : cache) : string :=
   match cached k "fresh-revision-name" with JStr s :: _ => s | _ => "" end.
 
+(* addControllerUIDLabel: with a generated selector each revision's desired
+   children get the controller-uid label before the rollout looks at them
+   (children with unreadable labels are left for enforce_labels to reject) *)
+Definition add_uid_label (parent d : json) : json :=
+  match nested_get (obj_map d) ["metadata"; "labels"] with
+  | NErr => d
+  | r =>
+      let strict := match r with
+                    | NFound (JObj m) =>
+                        if forallb (fun kv => match snd kv with JStr _ => true | _ => false end) m
+                        then Some (map (fun kv => (fst kv, match snd kv with JStr s => s | _ => "" end)) m)
+                        else None
+                    | NMissing => Some []
+                    | _ => None end in
+      match strict with
+      | None => d
+      | Some ls =>
+          match slookup "controller-uid" ls with
+          | Some _ => d
+          | None =>
+              match d with
+              | JObj m => match nested_set m ["metadata"; "labels"]
+                                  (JObj (map (fun kv => (fst kv, JStr (snd kv))) (ls ++ [("controller-uid", get_uid parent)]))) with
+                          | Some m' => JObj m' | None => d end
+              | _ => d end
+          end
+      end
+  end.
+
+Definition label_resp (c : ccfg) (parent : json) (r : hook_resp) : hook_resp :=
+  if gen_selector c
+  then mkHR (hr_status r) (map (option_map (add_uid_label parent)) (hr_children r)) (hr_resync r) (hr_finalized r)
+  else r.
+
 Definition sync_revisions_rolling (c : ccfg) (k : cache) (parent : json) (observed related : umap)
   : prog hook_result :=
   oc <~ claim_revisions c k parent ;;
@@ -656,8 +690,10 @@ Definition sync_revisions_rolling (c : ccfg) (k : cache) (parent : json) (observ
                   | Some r => Ret r
                   | None =>
                       let prs1 := map (fun pa => match pa with
-                                    | (p, HRResp r) => mkPrev (pr_parent p) (pr_rev p) r
-                                                              (relative_desired (get_ns parent) (hr_children r))
+                                    | (p, HRResp r0) =>
+                                        let r := label_resp c parent r0 in
+                                        mkPrev (pr_parent p) (pr_rev p) r
+                                               (relative_desired (get_ns parent) (hr_children r))
                                     | (p, _) => p end) answers in
                       match sync_rolling_update c (get_ns parent) observed prs1 with
                       | None => Ret HRErr
